@@ -86,6 +86,14 @@ def parseFOpts (opts : String) : Option FOpts := do
   let shm : Option (Bytes → Bytes) ← (match kv opts "shmap" with
     | none => some none
     | some v => do let c ← decBytes v; pure ((ShMap.ofFile c).map fun m => m.rewrite))
+  -- the regex engine is a parameter: its behaviour on the inputs of this case, tabulated by the harness with the real engine
+  let rxTable (k : String) : Option (Option (Bytes → Bytes)) := match kv opts k with
+    | none => some none
+    | some v => do
+      let ps ← decPairs v
+      pure (some fun x => match ps.find? (fun p => p.1 == x) with | some p => p.2 | none => x)
+  let rxMsg ← rxTable "rxmsg"
+  let rxBlob ← rxTable "rxblob"
   let orElse {α} (a b : Option α) : Option α := match a with | some x => some x | none => b
   let oi (k : String) : Option (Option Int) := match kv opts k with
     | none => some none | some "none" => some none | some v => v.toInt?.map some
@@ -97,6 +105,8 @@ def parseFOpts (opts : String) : Option FOpts := do
     shaOversize := fun sha => oversz.contains sha
     msgRules := orElse msgF (← optPairs opts "msg")
     shortHash := shm
+    msgRegex := rxMsg
+    blobRegex := rxBlob
     blobRules := orElse blobF (← optPairs opts "blob")
     mailmap := orElse mmF mm
     emailRules := orElse emailF (← optPairs opts "email")
